@@ -14,7 +14,7 @@ def lexer_conformance(ctx):
     """The real lexer's token stream (hook VerifLex) vs the character-level model Lexer.tla."""
     import conf
     out = ctx.sub("lex")
-    r = ctx.vh(["lexobs", "-out", out, "-seed", ctx.seed, "-shards", 16, "-ntexts", ctx.pick(3000, 40000), "-prefixes", ctx.pick(600, 6000),
+    r = ctx.vh(["lexobs", "-out", out, "-seed", ctx.seed, "-shards", 16, "-ntexts", ctx.pick(3000, 160000), "-prefixes", ctx.pick(600, 20000),
                 "-corpus", conf.CORPUS, "-nrand", ctx.pick(30, 200), "-nexpr", ctx.pick(5, 30)])
     log(r.stdout.strip().splitlines()[-1])
     shards = sorted(glob.glob(os.path.join(out, "lex-*.json")))
@@ -46,7 +46,7 @@ def parser_conformance(ctx):
     """The real grammar-file parser's syntax tree vs the token-level model FileParse.tla."""
     import conf
     out = ctx.sub("parse")
-    r = ctx.vh(["parseobs", "-out", out, "-seed", ctx.seed, "-shards", 16, "-ntexts", ctx.pick(3000, 40000), "-nfile", ctx.pick(1200, 12000),
+    r = ctx.vh(["parseobs", "-out", out, "-seed", ctx.seed, "-shards", 16, "-ntexts", ctx.pick(3000, 120000), "-nfile", ctx.pick(1200, 40000),
                 "-klen", ctx.pick(2, 3), "-corpus", conf.CORPUS, "-nrand", ctx.pick(40, 300), "-nexpr", ctx.pick(10, 60)])
     log(r.stdout.strip().splitlines()[-1])
     shards = sorted(glob.glob(os.path.join(out, "parse-*.json")))
@@ -85,7 +85,7 @@ def run(ctx, replay):
     lexer_conformance(ctx)
     parser_conformance(ctx)
     out = ctx.sub("file")
-    n = ctx.pick(16, 120)
+    n = ctx.pick(16, 400)
     r = ctx.vh(["fileobs", "-phase", "specs", "-n", n, "-out", out, "-seed", ctx.seed])
     # pass 1: TLC generates the layouts
     d = ctx.sub("layout")
